@@ -80,4 +80,15 @@ def run(op, a):
         from .C02 import make_block
         from .txconv import tx_from_val
         return make_block(a[0][0], [tx_from_val(t) for t in a[0][1]]).GetWeight()
+    if op == 9:
+        from .txconv import tx_from_val, witness_from_val
+        m = tx_from_val(a[0], mutable=True)
+        w0 = obs(m.calc_weight)
+        e = tx_from_val(a[1], mutable=True)
+        # edit the SAME object field by field into the second value
+        m.nVersion, m.nLockTime = e.nVersion, e.nLockTime
+        m.vin[:] = e.vin
+        m.vout[:] = e.vout
+        m.wit = witness_from_val(a[1][3])
+        return [w0, obs(m.calc_weight)]
     raise ValueError('op')
